@@ -435,6 +435,55 @@ theorem old_range_drops_trailing_blank_line_guides :
     (numberedRows (fun _ => 1) false true (demoOpts (some (9, 12)) [] true) true (oneToken false) gapCode).map (List.map (·.num)) = .ok [9] := by
   decide
 
+/-! ## Rendering is pure: one Syntax object rendered again and again -/
+
+/-- The rest of the numbered branch as a function of the text after `remove_suffix` (what `numberedRows` does with it). -/
+def rowsOfText (cw : Char → Nat) (rangePop : Bool) (o : Opts) (code : List Char) (text : List Char) : Except Err (List Row) :=
+  match linesOfText rangePop o text with
+  | .error e => .error e
+  | .ok lines =>
+    if o.wordWrap && decide (codeWidthInt o code < 1) then .ok []
+    else .ok (numberRows (o.startLine + lineOffset o) o.highlightLines
+               (lines.map (fitLine cw (colWidth o code) o.pad (noCrop o))))
+
+/-- `render_pure`: however often ONE object with unchanged attributes is rendered, and whatever it may have been handed as
+"remembered" text, every render answers what the first one answers — for every `rest`, every `highlight` result, every
+number of renders.  (The code as it is remembers nothing: `cacheText = false`.) -/
+theorem render_pure {β : Type} (rest : List Char → β) (hl : Except Err (List Char)) (cache : Option (List Char)) (n : Nat) :
+    objRenders false rest hl cache n = List.replicate n (hl.map (fun t => rest (removeSuffixNL t))) := by
+  induction n generalizing cache with
+  | zero => rfl
+  | succ k ih =>
+    cases hl with
+    | error e => simp only [objRenders, Bool.false_eq_true, if_false, List.replicate_succ, ih]; rfl
+    | ok t => simp only [objRenders, Bool.false_eq_true, if_false, List.replicate_succ, ih]; rfl
+
+/-- … instantiated: the rows of the numbered branch are `highlight` followed by `rowsOfText`, so `n` renders of one Syntax
+object give `n` times the rows `numberedRows` gives. -/
+theorem render_pure_rows (cw : Char → Nat) (sr rp : Bool) (o : Opts) (found : Bool) (lex : List Char → List Line)
+    (code : List Char) (cache : Option (List Char)) (n : Nat) :
+    (objRenders false (rowsOfText cw rp o code)
+        (highlight sr found (lex (shownSrc o code)) (shownSrc o code) o.lineRange) cache n).map
+      (fun r => r.bind id) = List.replicate n (numberedRows cw sr rp o found lex code) := by
+  rw [render_pure, List.map_replicate]
+  congr 1
+  unfold numberedRows selectedLines rowsOfText
+  dsimp only [shownSrc]
+  generalize highlight sr found (lex (expandTabs o.tabSize (shownCode o code))) (expandTabs o.tabSize (shownCode o code)) o.lineRange = h
+  cases h with
+  | error e => rfl
+  | ok t =>
+    simp only [Except.map, Except.bind, id]
+    cases linesOfText rp o (removeSuffixNL t) <;> rfl
+
+/-- Why nothing may be remembered: with the highlighted Text kept on the instance and handed out uncopied, the blank
+line 3 that ends the range (1, 3) is shown by the first render and gone — number and row — from the second on. -/
+theorem cached_text_would_decay :
+    (objRenders true (rowsOfText (fun _ => 1) false (demoOpts (some (1, 3)) []) gapCode)
+        (highlight false true (oneToken false (expandTabs 4 gapCode)) (expandTabs 4 gapCode) (some (1, 3))) none 3).map
+      (fun r => r.bind (fun x => x.map List.length)) = [.ok 3, .ok 2, .ok 2] := by
+  decide
+
 /-! ## Non-vacuity: the hypotheses are met by concrete, non-trivial values; the repaired variant on the witnesses -/
 
 example : Setting (demoOpts (some (3, 4)) [3]) true (oneToken false) demoCode :=
